@@ -195,6 +195,78 @@ impl AnyCodec {
     }
 }
 
+/// (vi) BincodeCodec is generic in the bincode configuration: the round-trip / short-buffer / truncation
+/// clauses for configurations other than standard() (no wire model for these: the statement is about
+/// the codec against itself).
+fn other_config<C: Codec<SId>>(mut codec: C, cname: &str, g: &mut G, out: &mut FOut, cases: &mut u64) {
+    for what in 0..2u8 {
+        let hdr = Header { src: gen_sid(g), src_incarnation: gen_u(g, 16) as u16, dst: gen_sid(g), message: gen_msg(g) };
+        let mem = Member::new(gen_sid(g), gen_u(g, 16) as u16, match g.below(3) { 0 => State::Alive, 1 => State::Suspect, _ => State::Down });
+        let vnums = if what == 0 { hdr_nums(&hdr) } else { mem_nums(&mem) };
+        let ctx = format!("codec=bincode({cname}) {}", if what == 0 { format!("{hdr:?}") } else { format!("{mem:?}") });
+        let mut full: Vec<u8> = vec![];
+        let r = catch_unwind(AssertUnwindSafe(|| if what == 0 { codec.encode_header(&hdr, &mut full).is_ok() } else { codec.encode_member(&mem, &mut full).is_ok() }));
+        *cases += 1;
+        if !matches!(r, Ok(true)) {
+            out.hit("C20:encode-failed-or-panicked", J::s(ctx.clone()));
+            continue;
+        }
+        out.distinct.insert(hash_of(&(cname.to_string(), what, full.len())));
+        // round trip with trailing data: equal value, exactly the bytes produced
+        let mut with_tail = full.clone();
+        for _ in 0..g.below(6) {
+            with_tail.push(g.below(256) as u8);
+        }
+        let mut cur = &with_tail[..];
+        let rt = catch_unwind(AssertUnwindSafe(|| {
+            if what == 0 { codec.decode_header(&mut cur).ok().map(|h| hdr_nums(&h)) } else { codec.decode_member(&mut cur).ok().map(|m| mem_nums(&m)) }
+        }));
+        *cases += 1;
+        match rt {
+            Ok(Some(v)) if v == vnums && with_tail.len() - cur.len() == full.len() => {}
+            other => out.hit("C20:round-trip-failed", J::s(format!("{ctx}: encoded {full:?}, decoded {other:?}, consumed {}", with_tail.len() - cur.len()))),
+        }
+        // every buffer size: Ok iff it suffices, never past the limit, never a panic
+        for room in 0..=full.len() + 1 {
+            let mut buf = Vec::with_capacity(room).limit(room);
+            let r = catch_unwind(AssertUnwindSafe(|| if what == 0 { codec.encode_header(&hdr, &mut buf).is_ok() } else { codec.encode_member(&mem, &mut buf).is_ok() }));
+            *cases += 1;
+            match r {
+                Err(_) => out.hit("C20:panic-on-short-buffer", J::s(format!("{ctx}: room {room}"))),
+                Ok(ok) => {
+                    if ok != (room >= full.len()) {
+                        out.hit("C20:short-buffer-result", J::s(format!("{ctx}: room {room} ok={ok} needed {}", full.len())));
+                    }
+                    if buf.get_ref().len() > room {
+                        out.hit("C20:wrote-past-the-limit", J::s(format!("{ctx}: room {room} wrote {}", buf.get_ref().len())));
+                    }
+                }
+            }
+        }
+        // truncations and mutations: a value or an error, no panic, nothing read past the input
+        let mut inputs: Vec<Vec<u8>> = (0..full.len()).map(|k| full[..k].to_vec()).collect();
+        for _ in 0..6 {
+            let mut b = with_tail.clone();
+            for _ in 0..1 + g.below(3) {
+                let i = g.below(b.len() as u64) as usize;
+                let r = g.below(256) as u8;
+                b[i] = *g.pick(&[0u8, 1, 3, 127, 128, 250, 251, 252, 253, 254, 255, r]);
+            }
+            inputs.push(b);
+        }
+        for inp in inputs {
+            let mut cur = &inp[..];
+            let r = catch_unwind(AssertUnwindSafe(|| {
+                if what == 0 { codec.decode_header(&mut cur).is_ok() } else { codec.decode_member(&mut cur).is_ok() }
+            }));
+            *cases += 1;
+            if r.is_err() {
+                out.hit("C20:decoder-panicked", J::s(format!("{ctx}: input {inp:?}")));
+            }
+        }
+    }
+}
+
 /// (v) Foca itself running with a bundled codec under tight packet sizes: every Feed and Gossip
 /// datagram is header + u16 count + exactly count members + nothing else, within the limit.
 fn feed_sweep<C: Codec<SId> + Clone>(codec: C, cname: &str, g: &mut G, out: &mut FOut, cases: &mut u64)
@@ -339,7 +411,7 @@ where
 
 pub fn c20(seed: u64, budget: u64) -> FOut {
     let mut out = FOut::default();
-    out.rule = "for BincodeCodec(standard()) and PostcardCodec over Header<SId>/Member<SId> (SId = {u8,u16,u32,u64}): random values with boundary integers (0,1,127,128,250,251,255,2^16-1,2^16,MAX-1,MAX) in every field and every Message variant; (i) encoding into an unbounded buffer must equal the Coq model's bytes; (ii) decoding those bytes followed by random trailing data must return the value and consume exactly the encoding; (iii) encoding into a Limit buffer of EVERY size 0..len: Ok iff the size suffices, never more bytes than the limit, bytes written as the model predicts; (iv) every truncation of the encoding, random byte strings and mutated encodings: the real decoder and the model must agree on error / value / bytes consumed; (v) a real Foca<SId, bundled codec> holding 2..25 members answers an Announce and gossips under 76 packet sizes from 'header barely fits' upwards: every datagram is within the limit and is header + count + exactly count decodable members + nothing else (nothing a failing encode_member wrote is left behind), Feed lists only known members other than the receiver; everything under catch_unwind (a panic is a hit). distinct = distinct (codec, kind, encoded length) triples".into();
+    out.rule = "for BincodeCodec(standard()) and PostcardCodec over Header<SId>/Member<SId> (SId = {u8,u16,u32,u64}): random values with boundary integers (0,1,127,128,250,251,255,2^16-1,2^16,MAX-1,MAX) in every field and every Message variant; (i) encoding into an unbounded buffer must equal the Coq model's bytes; (ii) decoding those bytes followed by random trailing data must return the value and consume exactly the encoding; (iii) encoding into a Limit buffer of EVERY size 0..len: Ok iff the size suffices, never more bytes than the limit, bytes written as the model predicts; (iv) every truncation of the encoding, random byte strings and mutated encodings: the real decoder and the model must agree on error / value / bytes consumed; (v) a real Foca<SId, bundled codec> holding 2..25 members answers an Announce and gossips under 76 packet sizes from 'header barely fits' upwards: every datagram is within the limit and is header + count + exactly count decodable members + nothing else (nothing a failing encode_member wrote is left behind), Feed lists only known members other than the receiver; (vi) BincodeCodec with the configurations big-endian, fixed-int, legacy and big-endian fixed-int (no wire model): round trip with trailing data (equal value, exactly the bytes produced), every buffer size (Ok iff it suffices, nothing past the limit), truncations and mutations (no panic); everything under catch_unwind (a panic is a hit). distinct = distinct (codec, kind, encoded length) triples".into();
     let mut g = G::new(seed ^ 0xC20);
     let mut drv = Drv::new();
     let mut cases = 0u64;
@@ -457,6 +529,12 @@ pub fn c20(seed: u64, budget: u64) -> FOut {
                     out.samples.push(J::s(format!("{ctx} -> {full:?}")));
                 }
             }
+        }
+        if _run % 4 == 0 {
+            other_config(BincodeCodec(bincode::config::standard().with_big_endian()), "big-endian", &mut g, &mut out, &mut cases);
+            other_config(BincodeCodec(bincode::config::standard().with_fixed_int_encoding()), "fixed-int", &mut g, &mut out, &mut cases);
+            other_config(BincodeCodec(bincode::config::legacy()), "legacy", &mut g, &mut out, &mut cases);
+            other_config(BincodeCodec(bincode::config::standard().with_big_endian().with_fixed_int_encoding()), "big-endian fixed-int", &mut g, &mut out, &mut cases);
         }
         if _run % 8 == 0 {
             feed_sweep(BincodeCodec(bincode::config::standard()), "bincode", &mut g, &mut out, &mut cases);
